@@ -3,6 +3,8 @@ C16 — property theorems (curve points, lengths and closest-parameter queries a
 
   T_C16_ends               DiscreteCurve.discretize(a, b) starts at get_point(a) and ends at get_point(b), either order
   T_C16_ends_function      FunctionCurveBase.discretize(a, b, n) starts at f(a) and ends at f(b) (linspace end point exact)
+  T_C16_params             argument handling of function curves: explicit parameters are kept (also an explicit 0), None is the bound
+  T_C16_ends_bounds        … so discretize(a|None, b|None, n) runs from f(a or lower bound) to f(b or upper bound)
   T_C16_additive_polyline  a polyline length is additive over a split at any of its points (any distance oracle)
   T_C16_additive           DiscreteCurve.get_length(a, c) = get_length(a, b) + get_length(b, c) for a ≤ b ≤ c
   T_C16_order              … and does not depend on the order of the two parameters (symmetric distance)
@@ -72,6 +74,47 @@ theorem T_C16_ends_function (f : Rat → α) (a b : Rat) (n : Nat) (hn : 2 ≤ n
   constructor
   · simp [List.range_succ_eq_map]
   · simp
+
+/-- Argument handling of `discretize` / `get_length` of a function curve with bounds `(lo, hi)`: an explicitly given parameter is
+    never replaced (in particular not an explicit 0 when `lo ≠ 0`), a missing one is the bound, anything outside the bounds is
+    rejected. -/
+theorem T_C16_params (lo hi : Rat) (pf pt : Option Rat) :
+    (∀ p, getParamsF lo hi pf pt = some p →
+        p = (pf.getD lo, pt.getD hi) ∧ lo ≤ p.1 ∧ p.1 ≤ hi ∧ lo ≤ p.2 ∧ p.2 ≤ hi) ∧
+    (∀ a b, lo ≤ a → a ≤ hi → lo ≤ b → b ≤ hi → getParamsF lo hi (some a) (some b) = some (a, b)) ∧
+    (lo ≤ hi → getParamsF lo hi none none = some (lo, hi)) := by
+  refine ⟨?_, ?_, ?_⟩
+  · intro p h
+    unfold getParamsF at h
+    simp only at h
+    split at h
+    · rename_i hb
+      cases h
+      exact ⟨rfl, hb⟩
+    · cases h
+  · intro a b h1 h2 h3 h4
+    simp [getParamsF, h1, h2, h3, h4]
+  · intro h
+    simp [getParamsF, h]
+
+/-- … hence the discretisation of a function curve starts at the curve point of the first parameter (the lower bound when it is
+    omitted) and ends at that of the second (the upper bound when omitted) -/
+theorem T_C16_ends_bounds (f : Rat → α) (lo hi : Rat) (pf pt : Option Rat) (n : Nat) (hn : 2 ≤ n) (l : List α)
+    (h : discretizeFB f lo hi pf pt n = some l) :
+    l.head? = some (f (pf.getD lo)) ∧ l.getLast? = some (f (pt.getD hi)) := by
+  unfold discretizeFB at h
+  cases hp : getParamsF lo hi pf pt with
+  | none => simp [hp] at h
+  | some p =>
+    simp only [hp, Option.map_some, Option.some.injEq] at h
+    obtain ⟨hpe, _⟩ := (T_C16_params lo hi pf pt).1 p hp
+    subst h
+    rw [hpe]
+    exact T_C16_ends_function f _ _ n hn
+
+example : getParamsF (-1) 2 (some 0) none = some (0, 2) ∧ getParamsF (-1) 2 none (some 3) = none ∧
+    discretizeFB (fun t => 10 * t) (-1) 2 (some 0) none 3 = some [0, 10, 20] := by
+  refine ⟨?_, ?_, ?_⟩ <;> decide +kernel
 
 /-! ### additivity -/
 
